@@ -58,6 +58,17 @@ CHECKS = {
              'file sets (1-4 slabs, chunking, all flags, MT naming, secondary/lightcone, 1-D deviates), compared exactly; an oracle decoding every attribute of every row back to its halo id decides violations.',
         note='Trusted: Lean kernel (+propext, Classical.choice, Quot.sound); harness/stagegen.py encodings and the documented field-to-array mapping; the ast translator; h5py/asdf; numpy argsort/searchsorted/fancy indexing modelled by specification; duplicate-free ids only.',
         design='§7 C12'),
+    'C04': dict(
+        technique='Lean 4 proofs (BitVec/Nat div-mod lemmas, omega; rhe_close for the round trip) over a model whose constants are regenerated from the imported module + differential run of the compiled model driver against unpack_rvint/unpack_pids/_unpack_rvint/_unpack_pids (compiled and py_func) + integer-layout oracle; thorough: all 2^32 RVint words',
+        text='26 theorems (rvPos/rvVel_layout, rv_fields_independent, rv_roundtrip_pos/vel, aux_lagrCoord/lagrIdx/lagrPos/tagged/density/pid_layout, pid_has_only_id_bits, aux_fields_independent, '
+             'aux_fields_ignore_other_bits, kernel_spec/oob, unpackRvint_spec, unpackPids_spec, outputs_independent_of_selection, emptyArrays_all, consts_documented) hold for all 2^32 / 2^64 words, all rational '
+             'Box/positions/velocities, all input lengths and all output selections, on a model of bitpacked.py stated over Generated/BitConsts.lean, which is re-extracted from /repo on every run '
+             '(module constants plus kernel literals solved from py_func on basis words), so a changed constant breaks a proof. The model is tied to the real code by sweeps over every value of every bit field x random other bits, '
+             'all posout/velout modes, all 32 pid-output subsets, float32/float64, dyadic and non-dyadic Box/ppd: integers, velocities, densities exact; positions within 2 ulp; Lagrangian positions within 3 ulp of max(j*Box/ppd, Box/2). '
+             'Thorough decodes all 2^32 words with the compiled kernel, compares with the model tables T_pos/T_vel and checks field independence of the implementation bitwise.',
+        note='Trusted: Lean kernel (+propext, Classical.choice, Quot.sound), translator and harness, numba int32->int64 promotion as modelled; float rounding of the final scale multiply bounded, not modelled. '
+             'Unclaimed observation (not reachable through the public constructor, which forces unpack_bits=False for light cones): _load_halo_lc_subsamples(unpack_bits=True) raises TypeError.',
+        design='§7 C04'),
 }
 
 NOT_YET = {}
